@@ -12,10 +12,7 @@ package c15
 import (
 	"fmt"
 	"os"
-	"runtime"
 	"strconv"
-	"sync"
-
 )
 
 const idxStream = "index-boundary"
@@ -155,4 +152,3 @@ func runIdxCase(c vctx, idx int, base string) {
 	hs.rep = rep
 	hs.cycles(r, cfg, m2, lv2)
 }
-
